@@ -218,20 +218,20 @@ R_WaitEmpty ==
 
 \* the environment decides how every server treats this question; the
 \* as-is name can be asked twice by one search and gets the same treatment
-Q_New ==
+Q_NewWith(sc) ==
   /\ qph = "new"
   /\ perr' = ErrR("TimedOut")        \* "all timed out"
   /\ edns' = TRUE
   /\ round' = 0
-  /\ IF lc = 0 /\ world0[qt].set
-     THEN /\ script' = world0[qt].sc /\ UNCHANGED world0
-     ELSE /\ script' \in Scripts(cfg.ns)
-          /\ world0' = IF lc = 0 /\ cfg.call = "search" THEN [world0 EXCEPT ![qt] = [set |-> TRUE, sc |-> script']] ELSE world0
+  /\ script' = sc
+  /\ (lc = 0 /\ world0[qt].set) => sc = world0[qt].sc
+  /\ world0' = IF lc = 0 /\ cfg.call = "search" THEN [world0 EXCEPT ![qt] = [set |-> TRUE, sc |-> sc]] ELSE world0
   /\ now' = 0 /\ reqs' = <<>> /\ tie' = tie
   /\ qs' = Append(qs, <<lc, qt>>)
   /\ fresh' = (FreshEvery \/ qs = <<>>)
   /\ qph' = "send"
   /\ UNCHANGED <<cfg, svars, lvars, qt, qres, rst, order, ind, pend, est, tdue, ddl, defRep, defErr, rres>>
+Q_New == \E sc \in (IF lc = 0 /\ world0[qt].set THEN {world0[qt].sc} ELSE Scripts(cfg.ns)) : Q_NewWith(sc)
 
 \* run_query: get_transport, send_request (GetRT, Query::new), timeout(..)
 Q_RunQuery ==
@@ -440,4 +440,12 @@ SearchResult ==
 FoundIsForCandidate == \A i \in 1..Len(lks) : lks[i].res.found => lks[i].res.cand = lks[i].c
 
 Terminates == <>(sph = "done")
+
+-----------------------------------------------------------------------------
+(* projections compared with the implementation (servers count from 0 there) *)
+ViaNum(v) == CASE v = "mock" -> 1 [] v = "udp" -> 2 [] OTHER -> 3
+ResJson(r) == IF r.ok THEN [ok |-> [out |-> r.out, from |-> r.from - 1, via |-> ViaNum(r.via)]]
+              ELSE [err |-> r.kind]
+FoundJson(r) == IF r.found THEN [found |-> [cand |-> r.cand, empty |-> r.empty, n |-> r.n]]
+                ELSE [err |-> r.kind]
 =============================================================================
